@@ -460,6 +460,12 @@ class Ref:
         excl = self.excluded_levels(cons)
         for n in C["design"]:
             if all((n, l) in excl for l in self.level_names[n]):
+                if n in self.derived and self.is_complex(n):
+                    # a factor that has no level in its first trials (or, in a short sequence, in none at all) can lose
+                    # every level and still leave valid sequences: nothing is claimed about such a design
+                    C["unspecified_T"] = True
+                    self.amb("all-levels-of-late-factor-excluded")
+                    continue
                 C["unsat"] = True
                 C["unspecified_T"] = True
                 self.amb("all-levels-excluded")
